@@ -204,12 +204,14 @@ def run(ctx: Ctx, rep: Report, tier: str):
     from rules.common import provider_write_conditions
     rep.rule("C03.R14", "the engine's own writes happen under fixed conditions (C02.R16): a mirrored change is written once, on the peer, and not when it is already there", 10)
     section(rep, lambda: provider_write_conditions(ctx, rep, "C03.R14"))
-    from rules.common import disposal_conditions
-    rep.rule("C03.R15", "a one-sided change is discarded (entry ignored / half cleared) only under the inventoried conditions (C01.R19)", 20)
-    section(rep, lambda: disposal_conditions(ctx, rep, "C03.R15"))
+    from rules.decisions import decision_table as _dt, table_sites as _ts
+    rep.rule("C03.R15", "a one-sided change is discarded (entry ignored / half cleared) only in the states the decision table records (C01.R19)", _ts(None, r"\.(ignore|unignore|clear)\("))
+    section(rep, lambda: _dt(ctx, rep, "C03.R15", None, r"\.(ignore|unignore|clear)\("))
     from rules.common import entry_paths_match_for_display
     rep.rule("C03.R16", "a case-only rename is a change: SyncEntry.paths_match compares sync_path with path through paths_match(..., for_display=True)", 1)
     section(rep, lambda: entry_paths_match_for_display(ctx, rep, "C03.R16"))
     from rules.decisions import decision_table, table_sites
-    rep.rule("C03.R17", "decision table of rename handling and of the transfer functions (upload_synced, _create_synced, download_changed, temp files, update_entry): every action site is reached under exactly the recorded path condition and on the recorded side", table_sites("C03"))
-    section(rep, lambda: decision_table(ctx, rep, "C03.R17", "C03"))
+    rep.rule("C03.DT", "decision table (rules/decisions.json) of rename handling, the transfer functions (upload, create, download, temp files) and child re-basing: for every function and every action shape (an impure call with the parameters it passes, a store to an "
+             "attribute or item, a delete, a returned constant, a yield, a raise) the set of states - over the function's guard atoms - in which the action is taken "
+             "equals the recorded one; compared as canonical decision diagrams, so any equivalent respelling of the guards is the same table", table_sites("C03"))
+    section(rep, lambda: decision_table(ctx, rep, "C03.DT", "C03"))
